@@ -201,7 +201,7 @@ func VerifSingleFrames() {
 		if w.priority > 0 {
 			verifAssert(f.hdr.Priority != nil && *f.hdr.Priority == w.priority, "a request with a priority carries it")
 		} else {
-			verifAssert(f.hdr.Priority == nil, "a request without a priority carries none")
+			verifAssert(f.hdr.GetPriority() == 0, "a request without a priority carries none")
 		}
 		if len(f.cells) > 0 {
 			verifAssert(f.hdr.CellBlockMeta != nil && f.hdr.CellBlockMeta.GetLength() == uint32(len(f.cells)),
